@@ -3,6 +3,8 @@ mod common;
 mod tab;
 mod ans;
 mod ans_replay;
+mod range;
+mod range_replay;
 
 fn main() {
     common::install_panic_hook();
